@@ -1171,6 +1171,8 @@ impl DhtNetworkManager {
     async fn leave_network(&self) -> Result<()> {
         info!("Leaving DHT network...");
 
+        #[cfg(feature = "verif-hooks")]
+        crate::verif_hooks::sched_point("leave_network:before-peers").await;
         let leave_operation = DhtNetworkOperation::Leave;
         let connected_peers: Vec<PeerId> = {
             let peers = self.dht_peers.read().await;
@@ -1246,6 +1248,8 @@ impl DhtNetworkManager {
                 .collect()
         };
 
+        #[cfg(feature = "verif-hooks")]
+        crate::verif_hooks::sched_point("find_closest_nodes_local:before-table").await;
         // 1. Check local routing table
         {
             let dht_guard = self.dht.read().await;
@@ -1276,6 +1280,8 @@ impl DhtNetworkManager {
             }
         }
 
+        #[cfg(feature = "verif-hooks")]
+        crate::verif_hooks::sched_point("find_closest_nodes_local:before-peers").await;
         // 2. Add connected peers
         {
             let peers = self.dht_peers.read().await;
@@ -1853,6 +1859,8 @@ impl DhtNetworkManager {
             message_id: message_id.clone(),
         };
 
+        #[cfg(feature = "verif-hooks")]
+        crate::verif_hooks::sched_point("send_dht_request:registered").await;
         // Send message via network layer
         info!(
             "[STEP 1] {} -> {}: Sending {:?} request (msg_id: {})",
@@ -2310,6 +2318,8 @@ impl DhtNetworkManager {
             Vec::new()
         };
 
+        #[cfg(feature = "verif-hooks")]
+        crate::verif_hooks::sched_point("update_peer_info:before-peers").await;
         let mut peers = self.dht_peers.write().await;
         let peer_info = peers.entry(peer_id.clone()).or_insert_with(|| DhtPeerInfo {
             peer_id: peer_id.clone(),
@@ -2393,6 +2403,8 @@ impl DhtNetworkManager {
             }
         };
 
+        #[cfg(feature = "verif-hooks")]
+        crate::verif_hooks::sched_point("handle_peer_connected:after-peers").await;
         // Skip peers with no addresses - they cannot be used for DHT routing.
         let address_str = match addresses.first() {
             Some(addr) => addr.to_string(),
